@@ -88,6 +88,15 @@ P = {
                   "TraceTxn.tla folds them (legality of each event, result = cache contents, equal sequences) after a FIFO marker barrier.",
              note="Trusted: TLC; the marker barrier (a later event proves the earlier ones were delivered). Buffer overflow and reconnect purges are outside the statement.",
              tech="TLC model checking of Events.tla + TLC trace validation of recorded handler callbacks"),
+ "C09": dict(engine="tla-wire", cat="model_checking", ref="6 C09",
+             text="Mapper.tla gives for every column type of the type space (each atomic type as key; min/max 1..1, 0..1, 0..n, 1..n, bounded; string and "
+                  "integer enums; maps over key and value types) the one Go type a model field may have (NativeType) and the wire encoding Enc(column, value) "
+                  "of every native value; TLC checks the type laws and enumerates (column type x 24 candidate Go types) and (column type x value) incl. "
+                  "64-bit extremes, nil/non-nil optionals, empty/singleton/multi collections; the real mapper binds each model (NewInfo and NewDatabaseModel must "
+                  "accept exactly NativeType), writes it with NewRow, sends it through JSON, reads it back with GetRowData and CreateModel; TraceMapper.tla "
+                  "judges the JSON, the value read back and that absent columns leave fields untouched.",
+             note="Trusted: TLC, the harness' construction of Go values from abstract ones. Known finding: integers beyond 2^53.",
+             tech="TLA+ type and encoding functions (Mapper.tla on Wire.tla) + exhaustive enumerate-and-replay through mapper and JSON + TLC trace validation"),
  "C12": dict(engine="tla-wire", cat="model_checking", ref="6 C12",
              text="Wire.tla is a grammar of JSON trees for the 18 wire types (all ten operations with and without optional members, every condition function and "
                   "mutator, sets, maps, uuids and named uuids over every atomic type, rows, both update formats, monitor requests, selects and replies, results "
